@@ -22,6 +22,7 @@ def run(ctx):
               "examples then produce object arrays on which inverse / "
               "eigenvalue / trigonometric routines fail")
     H.rule_h1(ctx)
+    H.rule_h2(ctx)
     u1(ctx, ENTRIES, min_functions=15)
     ctx.r.assume("numerical equality across packagings and scale invariance "
                  "of arbitrary formulas are not decided")
